@@ -337,6 +337,10 @@ class EditStream(HTMLHandlerBase):
                 return flask.make_response(f'Invalid {name}', 400)
         if params['title'] is None or params.get('directory', '') is None:
             return flask.make_response('title and directory must not be null', 400)
+        if 'directory' in required and params['directory'] != current_stream.directory:
+            if models.Stream.get(directory=params['directory']) is not None:
+                return flask.make_response(
+                    f'A stream with directory "{html.escape(params["directory"])}" already exists', 400)
         current_stream.title = params['title']
         context = self.create_context(current_stream.title, False)
         if 'directory' in required:
